@@ -859,7 +859,7 @@ Proof.
     + inversion H; subst. exists a'. split; [exact Htr|]. split; [exact HI'|].
       destruct Hres as (Hqu & Hres). split; [left; exact Hqu|exact Hres].
   - (* 8 STARTTLS *)
-    inversion H; subst. apply post_quiet_keep; [exact HRI|reflexivity|discriminate].
+    destruct (negb (esmtp s)); inversion H; subst; apply post_quiet_keep; first [exact HRI|reflexivity|discriminate].
   - (* 9 AUTH *)
     apply andb_true_iff in Hent as [Hm16 Hent]. apply N.eqb_eq in Hm16. subst mask.
     assert (Hc16 : comstate s = 16%N).
